@@ -12,6 +12,7 @@ COMMON="-g -I$REPO -I$V/harness -DENABLE_LOCALES -Wno-unused-function"
 case $FL in
   plain)  CF="-O1 $COMMON" ;;
   asan)   CF="-O1 -fsanitize=address,undefined -fno-sanitize=pointer-overflow -fno-sanitize-recover=undefined -fno-omit-frame-pointer -DVD_ASAN $COMMON" ;;
+  tsan)   CF="-O1 -fsanitize=thread -fno-omit-frame-pointer -DVD_TSAN $COMMON" ;;
   limits) CF="-O1 -DCJSON_NESTING_LIMIT=4 -DCJSON_CIRCULAR_LIMIT=1 -DVD_LIMITS $COMMON" ;;
   *) echo "unknown flavour $FL" >&2; exit 2 ;;
 esac
@@ -26,6 +27,7 @@ wait
 [ -e $O/fail ] && { echo "build.sh: compilation failed" >&2; exit 1; }
 # direct uses of the C allocator by library code become visible to the driver (no source change)
 for o in cJSON cJSON_Utils; do
+  [ "$FL" = tsan ] && continue     # the threads mode uses the C allocator as it is (the tracking allocator is single-threaded)
   objcopy --redefine-sym malloc=vd_libc_malloc --redefine-sym free=vd_libc_free --redefine-sym realloc=vd_libc_realloc $O/$o.o
 done
 $CC $CF $O/*.o -lm -lpthread -o ${VERIF_BIN:-$V/out/bin/vdrv-$FL}
